@@ -34,6 +34,9 @@ ReleasedChild(a) == a \in rel
 \* ... and about an actor that was spawned owning C17 ("otherwise an OwningAddr behaves as a strong handle")
 SX(a) == (IF a \in Actor /\ act[a].stream THEN {"C13"} ELSE {}) \cup (IF a \in Actor /\ ReleasedChild(a) THEN {"C16"} ELSE {})
          \cup (IF a \in own THEN {"C17"} ELSE {})
+\* ... and about an actor that has survived an abandoned (timed-out) invocation under the carry-on policy also concerns C11
+\* ("the actor carries on with its state intact and later messages are handled")
+TmoX(a) == IF a \in Actor /\ act[a].tmo >= 0 /\ ~act[a].failto /\ hst.ab[a] # <<>> THEN {"C11"} ELSE {}
 IsEvent(e) == l <= Len(Rec) /\ Rec[l].ev = e /\ l' = l + 1
 E == Rec[l]
 
@@ -248,7 +251,7 @@ T_Cb == /\ IsEvent("cb")
         /\ LET a == E.task IN
            /\ G("cb.cur", cur = a /\ ~yl)
            /\ CASE E.name = "sb" ->
-                     /\ G("cb.sb", act[a].pc \in {"starting", "rs_mid"})
+                     /\ GX("cb.sb", TmoX(a), act[a].pc \in {"starting", "rs_mid"})
                      /\ RunLoop(a)
                 [] E.name = "se" ->
                      /\ G("cb.se", act[a].pc \in {"started", "rs_started"} /\ ScriptDone(a) /\ act[a].sdl < 0)
@@ -261,8 +264,8 @@ T_Cb == /\ IsEvent("cb")
                                                 /\ ~act[a].pbseen)
                           /\ act' = [act EXCEPT ![a].pbseen = TRUE] /\ UNCHANGED <<hnd, cli, rsp, tmr, reg, now, hst, cur, yl>>
                      ELSE /\ (IF act[a].pc # "failed" THEN TRUE ELSE G("cb.pb.failed" \o RstStartErr(a) \o (IF act[a].jh # "none" THEN ".owning" ELSE ""), FALSE))     \* the graceful epilogue on a failure path
-                          /\ (IF ~(act[a].pc = "idle" /\ act[a].mq # <<>>) THEN TRUE ELSE G("cb.pb.undrained." \o Head(act[a].mq).src \o (IF \E b \in Actor : act[b].pc = "failed" THEN ".fail" ELSE ""), FALSE))   \* stopping with accepted messages still queued
-                          /\ G(IF HeldAsChild(a) THEN "cb.pb.child" ELSE "cb.pb",
+                          /\ (IF ~(act[a].pc = "idle" /\ act[a].mq # <<>>) THEN TRUE ELSE GX("cb.pb.undrained." \o Head(act[a].mq).src \o (IF \E b \in Actor : act[b].pc = "failed" THEN ".fail" ELSE ""), TmoX(a), FALSE))   \* stopping with accepted messages still queued
+                          /\ GX(IF HeldAsChild(a) THEN "cb.pb.child" ELSE "cb.pb", TmoX(a),
                                (act[a].pc = "dequeued" /\ act[a].curp.k \in {"stop", "restart"}) \/ (act[a].pc = "idle" /\ act[a].mq = <<>> /\ ~ChanOpen(a)))
                           /\ RunLoop(a)
                 [] E.name = "fb" ->
